@@ -129,10 +129,21 @@ def run(ctx, report):
             if c and c.name in ("hash", "hash_slice") and (c.trait or "").endswith("Hash"):
                 v = strip(an.operand_expr(t.args[0], b.idx, len(b.stmts)))
                 st = strip(an.operand_expr(t.args[1], b.idx, len(b.stmts)))
-                if v.k == "field" and strip(v.a[0]).k == "param" and strip(v.a[0]).a[0] == 1:
-                    fed.append(v.a[1])
+                def own_field(x):
+                    x = strip(x)
+                    for _ in range(4):
+                        if x.k == "call" and x.a[0].name in ("as_slice", "as_ref", "deref", "clone") and len(x.a[1]) == 1:
+                            x = strip(x.a[1][0])
+                    return x.a[1] if x.k == "field" and strip(x.a[0]).k == "param" and strip(x.a[0]).a[0] == 1 else None
+                if own_field(v) is not None:
+                    fed.append(own_field(v))
                     if not all(an.cfg.dominates(b.idx, x) for x in an.cfg.exits):
                         problems.append("field %s is hashed conditionally" % v.a[1])
+                elif v.k == "agg" and v.a[0] == "tuple" and v.a[1] and all(own_field(x) is not None for x in v.a[1].values()):
+                    # `(self.seq, self.node_id, &self.signature).hash(state)`: a tuple hashes its components in order
+                    fed.extend(own_field(x) for x in v.a[1].values())
+                    if not all(an.cfg.dominates(b.idx, x) for x in an.cfg.exits):
+                        problems.append("the tuple of fields is hashed conditionally")
                 else:
                     problems.append("hashes %s" % short(v, 120))
                 if not (st.k == "param" and st.a[0] == 2):
